@@ -211,7 +211,16 @@ static void run_op(const std::vector<std::string> &w, const std::string &, out &
             if (w[2] == "trk") mach.reset(new UMachine<Tracked>(K));
             else mach.reset(new UMachine<int>(K));
         }
-        o.result = mach ? "ok" : "bad-reset";
+        o.result = (mach || (w.size() == 2 && w[1] == "premain")) ? "ok" : "bad-reset";
+        return;
+    }
+    if (w[0] == "premain")
+    {
+        // what the static objects with init_priority(101) computed before main()
+        o.result = std::string("c=") + premain_c() + " p=" + premain_p();
+        if (std::string(premain_c()) != "1/2[1] 3/0[1,2,3] 3:abc" || std::string(premain_p()) != "1/2[1] 3/0[1,2,3] 3:abc")
+            o.fail("operations run before main() gave " + o.result);
+        o.tag("before-main");
         return;
     }
     if (!mach)
@@ -921,6 +930,101 @@ static void gen_access(rng &r, bool)
             }
 }
 
+// ---------------------------------------------------------------- N = 0, long inputs, before main()
+static void gen_edge(rng &r, bool)
+{
+    // the degenerate capacity: every growing operation is a reject
+    for (const char *tw : {"c", "p"})
+    {
+        bool port = tw[0] == 'p';
+        for (const char *ty : {"int", "trk"})
+        {
+            VCfg c{tw, ty, 0};
+            P(vreset(c, 3));
+            P("new 0");
+            P("push 0 5");
+            P("emplace 0 6");
+            P("resize 0 3");
+            P("thr 0 push 0 7");
+            P("copy 1 0");
+            P("move 2 1");
+            P("acopy 0 1");
+            P("amove 1 2");
+            P("acopy 0 0");
+            P("at 0 0");
+            P("front 0");
+            P("wfill 0 3");
+            P("wat 0 0 1 0");
+            P("clear 0");
+            if (!port) P("erase 0 0 0");
+            P("del 2");
+            if (!port)
+            {
+                P("range 2 1 2");
+                P("del 2");
+                P("il 2 3");
+                P("del 2");
+                P("rangev 2 4 5 6");
+                P("del 2");
+                P("ranges 2 7");
+                P("thr 0 il 1 1 2");
+            }
+            P("finish");
+        }
+        P(sreset(tw, 0, 2));
+        P("snew 0");
+        P("spush 0 41");
+        P("scstr 0");
+        P("sgetany 0 0");
+        P("sptr 1 " + hx("abc"));
+        P("scstr 1");
+        P("sget 1 0");
+        P("sdel 1");
+        P("sptr 1 " + hx(std::string()));
+        P("scstr 1");
+        P("sdel 1");
+        if (port)
+        {
+            P("sptrlen 1 " + hx("abc") + " 2");
+            P("sadd 1 42");
+            P("scstr 1");
+            P("sclear 1");
+        }
+        P("sdel 0");
+    }
+    // one argument of more than 300 KiB for each linear routine
+    for (const char *tw : {"c", "p"})
+    {
+        bool port = tw[0] == 'p';
+        const int N = 307200;
+        P(sreset(tw, N, 1));
+        P("sptr 0 " + hx(rstr(r, N + 1, false)));
+        P("scstr 0");
+        P("spush 0 41");
+        P("sget 0 " + S(N - 1));
+        P("sset 0 " + S(N - 1) + " 5a");
+        P("scstr 0");
+        P("sdel 0");
+        if (port)
+        {
+            P("sptrlen 0 " + hx(rstr(r, N + 7, true)) + " " + S(N + 7));
+            P("sadd 0 42");
+            P("scstr 0");
+            P("sdel 0");
+        }
+        if (!port)
+            for (const char *k : {"range", "il"})
+            {
+                P(vreset(VCfg{tw, "int", 65536}, 1));
+                P(std::string(k) + " 0" + vals(r, 80000)); // 320 000 bytes of int
+                P("push 0 " + S(val(r)));
+                P("finish");
+            }
+    }
+    P("reset premain");
+    P("premain");
+}
+
 // ---------------------------------------------------------------- writes through the accessors
 // wat r i x k (k = 0 operator[], 1 data()[i], 2 *(begin()+i)), wfront r x, wback r x,
 // wfill r x (range-for), take r i (T y = std::move(v[i])); swap through a third object.
@@ -1114,6 +1218,7 @@ int main(int argc, char **argv)
             gen_access(r, th);
             gen_write(r, th);
             gen_erase_throw(r, th);
+            gen_edge(r, th);
         },
         run_op);
 }
